@@ -1,7 +1,686 @@
-//! C21 — not implemented yet.
+//! C21 — highlights are well-formed for any text.
+//! Engine: inputmc highlight — every short text over a mixed ASCII / Latin-1 / CJK / emoji word
+//! alphabet x every word / adjacent-phrase query of the text x every fragment size from twice the
+//! matched length up to the text length + 2 x fragment counts 0..3 x custom tags, through both the
+//! `highlight` request (fragments) and the legacy `highlight_field` (snippet). A second family of
+//! long padded texts pushes the match beyond the legacy snippet's fixed 120-byte window.
+//!
+//! Oracle (per returned fragment / snippet): non-empty; contains pre_tag..post_tag around text
+//! that analyzes to query tokens only; with the tags removed it is a substring of the stored text;
+//! char length (tags excluded) <= fragment_size; at most number_of_fragments fragments; only the
+//! requested field appears in the highlights map.
+
+use std::collections::{BTreeMap, BTreeSet};
+use std::sync::atomic::{AtomicBool, AtomicU64, Ordering};
+
+use parking_lot::Mutex;
+use rayon::prelude::*;
+use searchlite_core::api::IndexReader;
+use serde_json::{json, Value};
+
+use vcore::ev::Reporter;
+use vcore::inp::*;
+use vcore::world::*;
+
 use crate::Ctx;
 
-pub fn run(_ctx: &Ctx) -> i32 {
-  eprintln!("C21: check not implemented");
-  2
+const WORDS: [&str; 8] = ["rust", "a", "café", "naïve", "日本", "検索", "😀", "e🙂f"];
+const SEPS: [&str; 2] = [" ", ", "];
+/// custom tag pairs; none of their characters occurs in any text of the alphabet
+const TAGS: [(&str, &str); 2] = [("<em>", "</em>"), ("«[", "]»")];
+const SNIPPET_TAG: &str = "**";
+const SNIPPET_SIZE: usize = 120;
+/// pad words of family B; with the separating space their strides (7, 7, 9, 2 bytes) put the fixed
+/// 60-byte-back / 120-byte-long legacy window at every phase of the multi-byte characters once the
+/// gap before the word is varied
+const PADS: [&str; 4] = ["日本", "naïve", "😀😀", "a"];
+const PAD_COUNTS: [usize; 7] = [0, 4, 8, 9, 10, 16, 32];
+
+/// The genuine defect H16: highlight_fragments computes the fragment window in *bytes*
+/// (`m.start() - fragment_size/2 .. + fragment_size`) and slices with
+/// `text.get(start..end).unwrap_or("")`, so a window edge inside a multi-byte character yields "".
+const SIG_SPLIT: &str = "C21-fragment-window-splits-multibyte-char";
+
+#[derive(Clone, Debug)]
+struct Tok {
+  text: String,
+  start: usize,
+  end: usize,
+}
+
+/// Independent re-implementation of the documented default tokenizer (maximal runs of
+/// alphanumeric characters, ASCII lower-cased) that also keeps byte offsets. Cross-checked against
+/// the public analyzer for every text (machinery failure on disagreement).
+fn toks(text: &str) -> Vec<Tok> {
+  let mut out = Vec::new();
+  let mut cur = String::new();
+  let mut start = 0;
+  for (i, ch) in text.char_indices() {
+    if ch.is_alphanumeric() {
+      if cur.is_empty() {
+        start = i;
+      }
+      cur.push(ch.to_ascii_lowercase());
+    } else if !cur.is_empty() {
+      out.push(Tok { text: std::mem::take(&mut cur), start, end: i });
+    }
+  }
+  if !cur.is_empty() {
+    out.push(Tok { text: cur, start, end: text.len() });
+  }
+  out
+}
+
+#[derive(Clone, Debug)]
+struct Q {
+  /// the query string sent (legacy string query; phrases in double quotes as the README documents)
+  raw: String,
+  /// tokens of the query words, in order
+  tokens: Vec<String>,
+  phrase: bool,
+  /// byte length of the query as typed (for a phrase: both words + the longest separator)
+  typed_len: usize,
+}
+
+fn word_query(w: &str) -> Q {
+  Q { raw: w.to_string(), tokens: toks(w).into_iter().map(|t| t.text).collect(), phrase: false, typed_len: w.len() }
+}
+
+fn phrase_query(a: &str, b: &str) -> Q {
+  let mut tokens: Vec<String> = toks(a).into_iter().map(|t| t.text).collect();
+  tokens.extend(toks(b).into_iter().map(|t| t.text));
+  Q { raw: format!("\"{a} {b}\""), tokens, phrase: true, typed_len: a.len() + b.len() + 2 }
+}
+
+fn q_json(q: &Q) -> Value {
+  json!({"raw": q.raw, "tokens": q.tokens, "phrase": q.phrase, "typed_len": q.typed_len})
+}
+
+fn q_from_json(v: &Value) -> Q {
+  Q {
+    raw: v["raw"].as_str().unwrap_or("").to_string(),
+    tokens: v["tokens"].as_array().map(|a| a.iter().map(|x| x.as_str().unwrap_or("").to_string()).collect()).unwrap_or_default(),
+    phrase: v["phrase"].as_bool().unwrap_or(false),
+    typed_len: v["typed_len"].as_u64().unwrap_or(0) as usize,
+  }
+}
+
+/// Occurrences of the whole token sequence of a phrase query in the text (consecutive tokens).
+fn phrase_occurrences(tt: &[Tok], q: &Q) -> Vec<(usize, usize)> {
+  let n = q.tokens.len();
+  let mut out = Vec::new();
+  if !q.phrase || n == 0 || tt.len() < n {
+    return out;
+  }
+  for i in 0..=tt.len() - n {
+    if (0..n).all(|j| tt[i + j].text == q.tokens[j]) {
+      out.push((tt[i].start, tt[i + n - 1].end));
+    }
+  }
+  out
+}
+
+/// Byte length of the longest stretch of text one match of this query can cover.
+fn matched_len(tt: &[Tok], q: &Q) -> usize {
+  let mut l = q.typed_len;
+  for (s, e) in phrase_occurrences(tt, q) {
+    l = l.max(e - s);
+  }
+  for t in tt {
+    if q.tokens.contains(&t.text) {
+      l = l.max(t.end - t.start);
+    }
+  }
+  l
+}
+
+/// Model of the match sequence the fragments are centred on: leftmost match first, the next search
+/// starting where the previous match ended. A quoted phrase query highlights whole phrase
+/// occurrences only (its words are not highlighted on their own); a word query highlights every
+/// occurrence of its tokens. Used by the classifier (and cross-checked on every passing case).
+fn model_matches(tt: &[Tok], q: &Q) -> Vec<(usize, usize)> {
+  let mut cands: Vec<(usize, usize, u8)> = Vec::new();
+  for (s, e) in phrase_occurrences(tt, q) {
+    cands.push((s, e, 0));
+  }
+  if !q.phrase {
+    for t in tt {
+      if q.tokens.contains(&t.text) {
+        cands.push((t.start, t.end, 1));
+      }
+    }
+  }
+  cands.sort_by_key(|c| (c.0, c.2));
+  let mut out = Vec::new();
+  let mut pos = 0;
+  for (s, e, _) in cands {
+    if s >= pos {
+      out.push((s, e));
+      pos = e;
+    }
+  }
+  out
+}
+
+fn window(text: &str, m_start: usize, fs: usize) -> (usize, usize) {
+  let start = m_start.saturating_sub(fs / 2);
+  let end = usize::min(text.len(), start.saturating_add(fs));
+  (start, end)
+}
+
+fn window_splits(text: &str, m_start: usize, fs: usize) -> bool {
+  let (s, e) = window(text, m_start, fs);
+  !text.is_char_boundary(s) || !text.is_char_boundary(e)
+}
+
+/// Text between pre and post tags, left to right.
+fn tagged_regions<'a>(frag: &'a str, pre: &str, post: &str) -> Vec<&'a str> {
+  let mut out = Vec::new();
+  let mut i = 0;
+  while let Some(s) = frag[i..].find(pre) {
+    let inner = i + s + pre.len();
+    match frag[inner..].find(post) {
+      Some(e) => {
+        out.push(&frag[inner..inner + e]);
+        i = inner + e + post.len();
+      }
+      None => break,
+    }
+  }
+  out
+}
+
+/// The well-formedness oracle for one fragment / snippet.
+fn check_fragment(text: &str, frag: &str, pre: &str, post: &str, fs: usize, q: &Q) -> Result<(), String> {
+  if frag.is_empty() {
+    return Err("is empty".into());
+  }
+  let regions = tagged_regions(frag, pre, post);
+  let has_match = regions.iter().any(|r| {
+    let t = toks(r);
+    !t.is_empty() && t.iter().all(|x| q.tokens.contains(&x.text))
+  });
+  if !has_match {
+    return Err(format!("contains no {pre}..{post} around a match of the query (tagged regions {regions:?})"));
+  }
+  let plain = frag.replace(pre, "").replace(post, "");
+  if !text.contains(&plain) {
+    return Err(format!("with the tags removed ({plain:?}) it is not a substring of the stored text"));
+  }
+  let chars = plain.chars().count();
+  if chars > fs {
+    return Err(format!("is {chars} characters long (tags excluded), more than fragment_size {fs}"));
+  }
+  Ok(())
+}
+
+#[derive(Clone, Copy, Debug, PartialEq)]
+enum Mode {
+  Highlight { fs: usize, nf: usize, tag: usize },
+  Snippet,
+}
+
+impl Mode {
+  fn to_json(self) -> Value {
+    match self {
+      Mode::Highlight { fs, nf, tag } => json!({"kind": "highlight", "fragment_size": fs, "number_of_fragments": nf, "pre_tag": TAGS[tag].0, "post_tag": TAGS[tag].1, "tag": tag}),
+      Mode::Snippet => json!({"kind": "highlight_field"}),
+    }
+  }
+  fn from_json(v: &Value) -> Mode {
+    if v["kind"] == "highlight" {
+      Mode::Highlight { fs: v["fragment_size"].as_u64().unwrap_or(1) as usize, nf: v["number_of_fragments"].as_u64().unwrap_or(1) as usize, tag: v["tag"].as_u64().unwrap_or(0) as usize }
+    } else {
+      Mode::Snippet
+    }
+  }
+  fn request(self, q: &Q) -> Value {
+    match self {
+      Mode::Highlight { fs, nf, tag } => json!({"query": q.raw, "limit": 10,
+        "highlight": {"fields": {"body": {"pre_tag": TAGS[tag].0, "post_tag": TAGS[tag].1, "fragment_size": fs, "number_of_fragments": nf}}}}),
+      Mode::Snippet => json!({"query": q.raw, "limit": 10, "highlight_field": "body"}),
+    }
+  }
+}
+
+struct Verdict {
+  /// outcome label (for the distinct-outcome count)
+  outcome: String,
+  /// fragments / snippets returned and checked
+  checked: usize,
+  /// Some((signature, description)) on a violation
+  fail: Option<(Option<&'static str>, String)>,
+  /// the independent match model predicted exactly the returned windows
+  model_agrees: bool,
+}
+
+/// Run one case against the real code and apply the oracle.
+fn eval_case(reader: &IndexReader, text: &str, tt: &[Tok], q: &Q, mode: Mode) -> Verdict {
+  let request = mode.request(q);
+  let res = match try_req(request.clone()) {
+    Ok(r) => search_caught(reader, &r),
+    Err(e) => return Verdict { outcome: "request-rejected".into(), checked: 0, fail: Some((None, format!("request {request} rejected: {e:#}"))), model_agrees: true },
+  };
+  let res = match res {
+    Ok(r) => r,
+    Err(e) if e.starts_with("PANIC") => {
+      return Verdict { outcome: "panic".into(), checked: 0, fail: Some((None, format!("search panicked: {e}"))), model_agrees: true };
+    }
+    // an error for a query without any token (an emoji) is not this property's business
+    Err(_) => return Verdict { outcome: "search-error".into(), checked: 0, fail: None, model_agrees: true },
+  };
+  if res.hits.is_empty() {
+    return Verdict { outcome: "no-hit".into(), checked: 0, fail: None, model_agrees: true };
+  }
+  let model = model_matches(tt, q);
+  let mut checked = 0;
+  let mut agrees = true;
+  for h in &res.hits {
+    match mode {
+      Mode::Highlight { fs, nf, tag } => {
+        let (pre, post) = TAGS[tag];
+        if h.snippet.is_some() {
+          return Verdict { outcome: "fail".into(), checked, fail: Some((None, "a snippet was returned although highlight_field was not requested".into())), model_agrees: agrees };
+        }
+        let empty = BTreeMap::new();
+        let map = h.highlights.as_ref().unwrap_or(&empty);
+        if let Some(k) = map.keys().find(|k| k.as_str() != "body") {
+          return Verdict { outcome: "fail".into(), checked, fail: Some((None, format!("highlights contain the unrequested field {k:?}"))), model_agrees: agrees };
+        }
+        let frags: &[String] = map.get("body").map(|v| v.as_slice()).unwrap_or(&[]);
+        if frags.len() > nf {
+          return Verdict { outcome: "fail".into(), checked, fail: Some((None, format!("{} fragments returned for number_of_fragments {nf}: {frags:?}", frags.len()))), model_agrees: agrees };
+        }
+        if frags.len() != nf.min(model.len()) {
+          agrees = false;
+        }
+        for (k, f) in frags.iter().enumerate() {
+          checked += 1;
+          let predicted = model.get(k).map(|m| (window(text, m.0, fs), window_splits(text, m.0, fs)));
+          if let Err(why) = check_fragment(text, f, pre, post, fs, q) {
+            // classifier: the fragment is empty AND the byte window around the k-th match of the
+            // query really has an edge inside a multi-byte character of the stored text
+            let sig = match predicted {
+              Some(((ws, we), true)) if f.is_empty() => {
+                let _ = (ws, we);
+                Some(SIG_SPLIT)
+              }
+              _ => None,
+            };
+            let detail = match predicted {
+              Some(((ws, we), split)) => format!(" [byte window of match {k}: {ws}..{we} of {} bytes, edge inside a multi-byte char: {split}]", text.len()),
+              None => String::new(),
+            };
+            return Verdict { outcome: format!("fail:{}", sig.unwrap_or("unexplained")), checked, fail: Some((sig, format!("fragment {k} {f:?} {why}{detail}; all fragments {frags:?}"))), model_agrees: agrees };
+          }
+          match predicted {
+            Some(((ws, we), false)) => {
+              if f.replace(pre, "").replace(post, "") != text[ws..we] {
+                agrees = false;
+              }
+            }
+            _ => agrees = false,
+          }
+        }
+      }
+      Mode::Snippet => {
+        if h.highlights.is_some() {
+          return Verdict { outcome: "fail".into(), checked, fail: Some((None, "a highlights map was returned although only highlight_field was requested".into())), model_agrees: agrees };
+        }
+        if let Some(s) = &h.snippet {
+          checked += 1;
+          let predicted = model.first().map(|m| (window(text, m.0, SNIPPET_SIZE), window_splits(text, m.0, SNIPPET_SIZE)));
+          if let Err(why) = check_fragment(text, s, SNIPPET_TAG, SNIPPET_TAG, SNIPPET_SIZE, q) {
+            let sig = match predicted {
+              Some((_, true)) if s.is_empty() => Some(SIG_SPLIT),
+              _ => None,
+            };
+            let detail = match predicted {
+              Some(((ws, we), split)) => format!(" [byte window of the first match: {ws}..{we} of {} bytes, edge inside a multi-byte char: {split}]", text.len()),
+              None => String::new(),
+            };
+            return Verdict { outcome: format!("fail:{}", sig.unwrap_or("unexplained")), checked, fail: Some((sig, format!("snippet {s:?} {why}{detail}"))), model_agrees: agrees };
+          }
+          match predicted {
+            Some(((ws, we), false)) => {
+              if s.replace(SNIPPET_TAG, "") != text[ws..we] {
+                agrees = false;
+              }
+            }
+            _ => agrees = false,
+          }
+        } else if !model.is_empty() {
+          agrees = false;
+        }
+      }
+    }
+  }
+  Verdict { outcome: format!("ok:{checked}"), checked, fail: None, model_agrees: agrees }
+}
+
+fn mk_world(text: &str) -> World {
+  World::new("text", schema_text_default(), vec![json!({"_id": "A", "body": text})])
+}
+
+fn case_json(text: &str, q: &Q, mode: Mode) -> Value {
+  json!({"engine": "inputmc-highlight", "world": mk_world(text).to_json(), "text": text, "query": q_json(q), "mode": mode.to_json(), "request": mode.request(q)})
+}
+
+/// Queries of a word sequence: every distinct word, then every distinct adjacent pair as a phrase.
+fn queries_of(words: &[&str]) -> Vec<Q> {
+  let mut out = Vec::new();
+  let mut seen = BTreeSet::new();
+  for w in words {
+    if seen.insert(w.to_string()) {
+      out.push(word_query(w));
+    }
+  }
+  for p in words.windows(2) {
+    let key = format!("{}\u{0}{}", p[0], p[1]);
+    if seen.insert(key) {
+      out.push(phrase_query(p[0], p[1]));
+    }
+  }
+  out
+}
+
+struct TextItem {
+  text: String,
+  words: Vec<&'static str>,
+  /// family B (long padded text, legacy snippet only)
+  long: bool,
+}
+
+fn enumerate_texts(max_words: usize) -> Vec<TextItem> {
+  let widx: Vec<usize> = (0..WORDS.len()).collect();
+  let sidx: Vec<usize> = (0..SEPS.len()).collect();
+  let mut out = Vec::new();
+  for n in 1..=max_words {
+    for ws in sequences(&widx, n, n) {
+      for ss in sequences(&sidx, n - 1, n - 1) {
+        let mut text = String::new();
+        for (i, w) in ws.iter().enumerate() {
+          if i > 0 {
+            text.push_str(SEPS[ss[i - 1]]);
+          }
+          text.push_str(WORDS[*w]);
+        }
+        out.push(TextItem { text, words: ws.iter().map(|w| WORDS[*w]).collect(), long: false });
+      }
+    }
+  }
+  out
+}
+
+/// Family B: (pad + " ") x k, g extra spaces, the query word, (" " + pad) x j — the match sits up
+/// to ~290 bytes into the text so that the legacy snippet's fixed 120-byte window has real left and
+/// right edges, at every byte phase of the pad characters.
+fn enumerate_long_texts() -> Vec<TextItem> {
+  let mut out = Vec::new();
+  for j in [0usize, 32] {
+    for k in PAD_COUNTS {
+      for gap in 0..=3usize {
+        for p in PADS {
+          for w in WORDS {
+            if w == p {
+              continue;
+            }
+            let mut text = String::new();
+            for _ in 0..k {
+              text.push_str(p);
+              text.push(' ');
+            }
+            for _ in 0..gap {
+              text.push(' ');
+            }
+            text.push_str(w);
+            for _ in 0..j {
+              text.push(' ');
+              text.push_str(p);
+            }
+            out.push(TextItem { text, words: vec![w], long: true });
+          }
+        }
+      }
+    }
+  }
+  out
+}
+
+struct Failure {
+  key: (usize, usize, usize),
+  sig: Option<&'static str>,
+  text: String,
+  q: Q,
+  mode: Mode,
+  what: String,
+}
+
+pub fn run(ctx: &Ctx) -> i32 {
+  let mut rep = Reporter::new("C21", ctx.tier, "exploration");
+  let quick = ctx.tier.is_quick();
+  if let Some(path) = &ctx.replay {
+    rep.set_replaying(true);
+    let v: Value = serde_json::from_slice(&std::fs::read(path).expect("replay file")).expect("json");
+    let cs = &v["case"];
+    let world = World::from_json(&cs["world"]);
+    let text = world.docs[0]["body"].as_str().expect("body").to_string();
+    let q = q_from_json(&cs["query"]);
+    let mode = Mode::from_json(&cs["mode"]);
+    let run = || {
+      let idx = world.build();
+      let reader = idx.reader().expect("reader");
+      eval_case(&reader, &text, &toks(&text), &q, mode).fail.map(|f| f.1)
+    };
+    let (a, b) = (run(), run());
+    if a.is_some() != b.is_some() {
+      vcore::ev::machinery_failure("NONDETERMINISM on replay");
+    }
+    return match a {
+      Some(w) => {
+        println!("VIOLATION property=C21 replay={path}\n  what: text {text:?} request {}: {w}", mode.request(&q));
+        1
+      }
+      None => {
+        println!("replay: no violation");
+        0
+      }
+    };
+  }
+
+  let max_words = if quick { 3 } else { 4 };
+  // order: texts of <= 2 words, the long-text family, then the larger layers
+  let all_short = enumerate_texts(max_words);
+  let short_texts = all_short.len();
+  let long = enumerate_long_texts();
+  let long_texts = long.len();
+  let (small, large): (Vec<TextItem>, Vec<TextItem>) = all_short.into_iter().partition(|t| t.words.len() <= 2);
+  let mut items = small;
+  items.extend(long);
+  items.extend(large);
+
+  let analyzers = schema(schema_text_default()).build_analyzers().expect("analyzers");
+  let deadline = if quick { 33.0 } else { 800.0 };
+  let timed_out = AtomicBool::new(false);
+  let evals = AtomicU64::new(0);
+  let frag_cases = AtomicU64::new(0);
+  let snip_cases = AtomicU64::new(0);
+  let checked_frags = AtomicU64::new(0);
+  let nontrivial = AtomicU64::new(0);
+  let cut_mid_char = AtomicU64::new(0);
+  let model_disagree = AtomicU64::new(0);
+  let no_highlight_for_hit = AtomicU64::new(0);
+  let outcomes: Mutex<BTreeMap<String, u64>> = Mutex::new(BTreeMap::new());
+  let failures: Mutex<Vec<Failure>> = Mutex::new(Vec::new());
+  // memory bound: failures are kept individually for the early (simplest) texts, for anything
+  // unexplained, and up to STORE_CAP overall; the rest is only counted per class
+  const STORE_CAP: u64 = 20_000;
+  let early_cut = items.iter().take_while(|t| t.long || t.words.len() <= 2).count();
+  let stored = AtomicU64::new(0);
+  let dropped: Mutex<BTreeMap<(Option<&'static str>, bool), u64>> = Mutex::new(BTreeMap::new());
+  let tok_mismatch: Mutex<Option<String>> = Mutex::new(None);
+
+  items.par_iter().enumerate().for_each(|(ti, item)| {
+    if rep.elapsed_s() > deadline {
+      timed_out.store(true, Ordering::Relaxed);
+      return;
+    }
+    let text = item.text.as_str();
+    let tt = toks(text);
+    // the oracle's tokenizer must agree with the real analyzer
+    if let Some(an) = analyzers.index_analyzer("body") {
+      let real: Vec<String> = an.analyze(text).into_iter().map(|t| t.text).collect();
+      let mine: Vec<String> = tt.iter().map(|t| t.text.clone()).collect();
+      if real != mine {
+        *tok_mismatch.lock() = Some(format!("text {text:?}: analyzer {real:?} vs oracle tokenizer {mine:?}"));
+        return;
+      }
+    }
+    let idx = mk_world(text).build();
+    let reader = idx.reader().expect("reader");
+    let mut local_out: BTreeMap<String, u64> = BTreeMap::new();
+    let mut local_dropped: BTreeMap<(Option<&'static str>, bool), u64> = BTreeMap::new();
+    let mut case_no = 0usize;
+    let qs = queries_of(&item.words);
+    for (qi, q) in qs.iter().enumerate() {
+      let mut modes: Vec<Mode> = vec![Mode::Snippet];
+      if !item.long {
+        let l = matched_len(&tt, q);
+        let lo = 2 * l;
+        let hi = usize::max(text.len() + 2, lo);
+        for fs in lo..=hi {
+          for nf in 0..=3usize {
+            for tag in 0..TAGS.len() {
+              // quick tier and the 4-word layer: both tag pairs for number_of_fragments 1, one
+              // (alternating) otherwise
+              if (quick || item.words.len() >= 4) && nf != 1 && tag != nf % 2 {
+                continue;
+              }
+              modes.push(Mode::Highlight { fs, nf, tag });
+            }
+          }
+        }
+      }
+      for mode in modes {
+        case_no += 1;
+        evals.fetch_add(1, Ordering::Relaxed);
+        let v = eval_case(&reader, text, &tt, q, mode);
+        *local_out.entry(v.outcome.clone()).or_insert(0) += 1;
+        checked_frags.fetch_add(v.checked as u64, Ordering::Relaxed);
+        let (fs, nf) = match mode {
+          Mode::Highlight { fs, nf, .. } => {
+            frag_cases.fetch_add(1, Ordering::Relaxed);
+            (fs, nf)
+          }
+          Mode::Snippet => {
+            snip_cases.fetch_add(1, Ordering::Relaxed);
+            (SNIPPET_SIZE, 1)
+          }
+        };
+        let model = model_matches(&tt, q);
+        if nf > 0 && model.iter().take(nf).any(|m| window_splits(text, m.0, fs)) {
+          cut_mid_char.fetch_add(1, Ordering::Relaxed);
+        }
+        if v.checked > 0 && fs < text.len() {
+          nontrivial.fetch_add(1, Ordering::Relaxed);
+          if v.fail.is_none() && !rep.sample_full() {
+            rep.sample(json!({"text": text, "request": mode.request(q), "fragments_checked": v.checked}));
+          }
+        }
+        if !v.model_agrees && v.fail.is_none() {
+          model_disagree.fetch_add(1, Ordering::Relaxed);
+        }
+        if v.outcome == "ok:0" && nf > 0 && !q.tokens.is_empty() {
+          no_highlight_for_hit.fetch_add(1, Ordering::Relaxed);
+        }
+        if let Some((sig, what)) = v.fail {
+          if sig.is_none() || ti < early_cut || stored.load(Ordering::Relaxed) < STORE_CAP {
+            stored.fetch_add(1, Ordering::Relaxed);
+            failures.lock().push(Failure { key: (ti, qi, case_no), sig, text: text.to_string(), q: q.clone(), mode, what });
+          } else {
+            *local_dropped.entry((sig, mode == Mode::Snippet)).or_insert(0) += 1;
+          }
+        }
+      }
+    }
+    let mut o = outcomes.lock();
+    for (k, n) in local_out {
+      *o.entry(k).or_insert(0) += n;
+    }
+    drop(o);
+    if !local_dropped.is_empty() {
+      let mut d = dropped.lock();
+      for (k, n) in local_dropped {
+        *d.entry(k).or_insert(0) += n;
+      }
+    }
+  });
+  if let Some(m) = tok_mismatch.lock().clone() {
+    vcore::ev::machinery_failure(&format!("oracle tokenizer disagrees with the analyzer: {m}"));
+  }
+  rep.add_evals(evals.load(Ordering::Relaxed));
+
+  // report failures in enumeration order (simplest text first), so the first witness is minimal
+  let mut fails = std::mem::take(&mut *failures.lock());
+  fails.sort_by_key(|f| f.key);
+  let mut by_sig: BTreeMap<String, u64> = BTreeMap::new();
+  let mut by_mode: BTreeMap<String, u64> = BTreeMap::new();
+  let mut first_of_sig: BTreeMap<String, Value> = BTreeMap::new();
+  for (i, f) in fails.iter().enumerate() {
+    let label = f.sig.unwrap_or("unexplained").to_string();
+    *by_sig.entry(label.clone()).or_insert(0) += 1;
+    *by_mode.entry(format!("{}/{}", label, if f.mode == Mode::Snippet { "highlight_field snippet" } else { "highlight fragments" })).or_insert(0) += 1;
+    let what = format!("text {:?} request {}: {}", f.text, f.mode.request(&f.q), f.what);
+    let first = !first_of_sig.contains_key(&label);
+    if first {
+      first_of_sig.insert(label, json!({"text": f.text, "request": f.mode.request(&f.q), "what": f.what}));
+    }
+    let cj = if i < 64 || first { case_json(&f.text, &f.q, f.mode) } else { Value::Null };
+    rep.fail(f.sig, &what, cj);
+  }
+  for ((sig, snippet), n) in dropped.lock().iter() {
+    let label = sig.unwrap_or("unexplained").to_string();
+    *by_sig.entry(label.clone()).or_insert(0) += n;
+    *by_mode.entry(format!("{}/{}", label, if *snippet { "highlight_field snippet" } else { "highlight fragments" })).or_insert(0) += n;
+    for _ in 0..*n {
+      rep.fail(*sig, "further case of the same class (counted, not stored individually)", Value::Null);
+    }
+  }
+
+  let to = timed_out.load(Ordering::Relaxed);
+  let outs = outcomes.lock().clone();
+  if outs.len() < 2 {
+    vcore::ev::machinery_failure("C21: fewer than 2 distinct outcomes observed (vacuous)");
+  }
+  let cov = vcore::cov! {
+    "distinct_nontrivial" => nontrivial.load(Ordering::Relaxed),
+    "rule" => "family A: every text of 1..=N words over {rust, a, café, naïve, 日本, 検索, 😀, e🙂f} with separators {\" \", \", \"} (one stored doc per index) x every distinct word of the text as a string query and every distinct adjacent word pair as a quoted phrase query x [highlight_field snippet] + [highlight: fragment_size from 2*L to max(len(text)+2, 2*L) step 1 (L = byte length of the longest text one match can cover, >= the query as typed; len in bytes) x number_of_fragments 0..3 x 2 custom tag pairs (quick tier and 4-word texts: both pairs only for number_of_fragments 1, one alternating pair otherwise)]; family B: (pad+' ')^k + ' '^g + word + (' '+pad)^j, pad in {日本, naïve, 😀😀, a}, k in {0,4,8,9,10,16,32}, g 0..3, j in {0,32}, word != pad, legacy snippet only (the fixed 120-byte window gets real left/right edges at every byte phase of the pad characters). A case is non-trivial when at least one fragment/snippet was returned and checked and the fragment size is smaller than the text (the window really cuts).",
+    "max_words" => max_words,
+    "texts_family_a" => short_texts,
+    "texts_family_b" => long_texts,
+    "highlight_cases" => frag_cases.load(Ordering::Relaxed),
+    "snippet_cases" => snip_cases.load(Ordering::Relaxed),
+    "fragments_checked" => checked_frags.load(Ordering::Relaxed),
+    "cases_whose_byte_window_has_an_edge_inside_a_multibyte_char" => cut_mid_char.load(Ordering::Relaxed),
+    "passing_cases_where_the_match_model_disagrees_with_the_returned_windows" => model_disagree.load(Ordering::Relaxed),
+    "hits_with_query_tokens_but_no_fragment" => no_highlight_for_hit.load(Ordering::Relaxed),
+    "outcomes" => outs,
+    "distinct_observed_outcomes" => outs.len(),
+    "failures_by_signature" => by_sig,
+    "failures_by_signature_and_mode" => by_mode,
+    "first_witness_by_signature" => first_of_sig,
+    "cap_hit" => if to { Some(format!("wall budget {deadline}s")) } else { None },
+    "exhaustive" => !to,
+  };
+  rep.finish(
+    cov,
+    vec![
+      "fragment_size precondition uses byte lengths (bytes >= chars, so 2*L in bytes is the stricter reading); the length bound demanded of a fragment is in characters (the weaker reading)".into(),
+      "number_of_fragments 0 is outside the documented domain (search-request.schema.json: minimum 1); it is accepted by the API and only 'at most 0 fragments' is demanded".into(),
+      "a hit without any fragment/snippet is not a violation (the property speaks about returned fragments); such cases are counted in coverage".into(),
+      "a tagged match is any pre_tag..post_tag region whose text analyzes to query tokens only; which occurrence is highlighted is not demanded".into(),
+      "queries without any token (the emoji word) are sent but nothing is demanded of an error or empty result".into(),
+      "stored text and query are lower-case; case folding, stemming, synonyms and edge n-grams are left out".into(),
+    ],
+  )
 }
